@@ -695,6 +695,91 @@ func special(r *core.Run) {
 	// that has never been that deep) and again in the same, now warmed, runtime.  The verdict must not
 	// depend on d or on the runtime's past.
 	tailExact(r)
+	// (e) the macro-expansion bound: a chain of d successive expansions under every bound x runs iff d <= x
+	// ("limits the number of successive macro expansions"), through evaluation and through macroexpand, at top
+	// level, inside a function and under a handler; the error is catchable and the runtime usable afterwards.
+	macroExact(r)
+}
+
+// macroPrelude defines c1..c7: (cK) expands to (cK-1), and (c1) expands to the datum 'done: K successive expansions.
+var macroPrelude = func() string {
+	var sb strings.Builder
+	sb.WriteString("(defmacro c1 () ''done) ")
+	for k := 2; k <= 7; k++ {
+		fmt.Fprintf(&sb, "(defmacro c%d () '(c%d)) ", k, k-1)
+	}
+	sb.WriteString("(defun viafun (k) (cond ((= k 1) (c1)) ((= k 2) (c2)) ((= k 3) (c3)) ((= k 4) (c4)) ((= k 5) (c5)) ((= k 6) (c6)) (else (c7))))")
+	return sb.String()
+}()
+
+var macroForms = []struct{ name, tmpl string }{
+	{"eval", "(c%d)"},
+	{"in-function", "(viafun %d)"},
+	{"macroexpand", "(macroexpand '(c%d))"},
+	{"handled", "(handler-bind ([condition (lambda (c &rest a) 'caught)]) (c%d))"},
+}
+
+func macroCase(k kase) (bool, string) {
+	var form, d, x int
+	fmt.Sscanf(k.Why, "macro-exact form=%d d=%d x=%d", &form, &d, &x)
+	g := newRig()
+	g.env.Load(macroPrelude)
+	src := fmt.Sprintf(macroForms[form].tmpl, d)
+	res := g.run(src, limits{MacroExp: x})
+	got := "VAL<" + res.out.Text + ">"
+	if res.out.IsErr {
+		got = "ERR<" + res.out.Cond + ": " + res.out.Text + ">"
+	}
+	var want string
+	switch {
+	case d <= x && macroForms[form].name == "macroexpand":
+		want = "VAL<''done>" // the final expansion itself: the form (quote done)
+	case d <= x:
+		want = "VAL<'done>"
+	case macroForms[form].name == "handled":
+		want = "VAL<'caught>"
+	default:
+		want = "ERR<error: macro expansion depth exceeded"
+	}
+	bad := !strings.HasPrefix(got, want)
+	if macroForms[form].name == "macroexpand" && d == x+1 {
+		// The macroexpand builtin tests its counter before each step, and returns at once when a step yields an
+		// atom: a chain of exactly bound+1 expansions is admitted or refused depending on the final form's type.
+		// The documentation bounds "successive macro expansions during evaluation"; for the builtin only
+		// "d <= bound runs, d >= bound+2 is refused" is demanded.
+		bad = !strings.HasPrefix(got, "VAL<''done>") && !strings.HasPrefix(got, "ERR<error: macro expansion depth exceeded")
+	}
+	rep := fmt.Sprintf("%s with %d successive expansions under a macro-expansion bound of %d => %s", src, d, x, got)
+	if res.clean != "" {
+		bad, rep = true, rep+"; runtime dirty: "+res.clean
+	}
+	// still usable, with the bound lifted
+	after := g.run("(c7)", limits{})
+	if after.out.IsErr || after.out.Text != "'done" {
+		bad, rep = true, rep+"; afterwards (c7) without a bound => "+after.out.Full()
+	}
+	return bad, rep
+}
+
+func macroExact(r *core.Run) {
+	var ks []kase
+	for form := range macroForms {
+		for d := 1; d <= 7; d++ {
+			for x := 1; x <= 8; x++ {
+				ks = append(ks, kase{Src: macroPrelude, Lim: limits{MacroExp: x}, Why: fmt.Sprintf("macro-exact form=%d d=%d x=%d", form, d, x)})
+			}
+		}
+	}
+	r.Bound("macro_exact_cases", len(ks))
+	core.ParallelRange(r, int64(len(ks)), nil, func(_ struct{}, i int64) {
+		bad, rep := macroCase(ks[i])
+		r.AddEvals(2)
+		r.AddTransitions(1)
+		r.Outcome("macro-exact")
+		if bad {
+			r.Violate("c04", "special:macro-bound-not-exact", ks[i], "runs iff successive expansions <= bound; otherwise a catchable 'macro expansion depth exceeded' error and a usable runtime", rep, "")
+		}
+	})
 }
 
 const tailPrelude = "(defun deep (k) (if (<= k 0) 0 (+ 1 (deep (- k 1))))) (defun tl (n d) (if (<= n 0) 'done (progn (deep d) (tl (- n 1) d))))"
@@ -797,6 +882,8 @@ func specialReplay(class string, k kase) (bool, string) {
 		return refillCase(k)
 	case "special:tail-bound-depends-on-stack-depth":
 		return tailCase(k)
+	case "special:macro-bound-not-exact":
+		return macroCase(k)
 	}
 	return false, "unknown special class"
 }
